@@ -25,7 +25,7 @@ def run(ck):
                "configurations x text/file source; leg B: every terminated behaviour replayed through run_script / run_script_file with "
                "scripted commands (invocation sequence with bound arguments, final variables, outcome, error line/source); leg C: random "
                "programs up to 40 lines with multi-result scripts executed by the real runner, each run validated step by step by "
-               "C03_Trace (silent steps for command-less lines). distinct_nontrivial = distinct (program, configuration) runs")
+               "C03_Trace (silent steps for command-less lines). distinct_nontrivial = distinct (program, configuration) runs; leg D: the repository's own test scripts run on the real SDK behind a logging proxy (every command, including functions defined at run time); each runner-loop instance is validated event by event by RunLoop_Trace: line progression (silent command-less lines, goto label/line, last label definition), the variables each command saw = previous body effect + store rule, on_error dispatch arguments, nothing after the end")
     s = replay_runs(ck, "C03_A2.cfg", "A/B: all programs of <=2 lines (rich alphabet)")
     ck.notes["legB"] = {"runs": s["runs"]}
     if not q:
@@ -44,5 +44,7 @@ def run(ck):
         ck.violation("runner:trace:%s" % x["first_unexplained_record"].get("ev"),
                      "real run not explained by Runner at record %s" % str(x["first_unexplained_record"])[:300], x)
     ck.notes["legC"] = {"programs": nruns, "records": s["records"], "rejections": len(rej), "seed": ck.seed}
+    import runloop
+    runloop.leg(ck, "C03")
     ck.assumptions += ["commands are scripted harness commands; error message texts are compared only when supplied by the test",
                        "every command line carries ${x} ${y} so each invocation observes the variable store through binding"]
